@@ -27,6 +27,11 @@ class NS(dict):
         self._w = world
 
     def __missing__(self, key):
+        import re
+
+        if re.fullmatch(r"_var\d+|result\d*", key):
+            # a generated variable used before its assignment is an error, not a builtin
+            raise NameError(f"name {key!r} is used before it is assigned")
         if key == "UNPICKLER":
             return Unpickler(self._w)
         if key == "frozenset":
